@@ -1,5 +1,7 @@
 use verif_core::*;
 
+pub mod c15;
+
 pub fn table() -> Vec<Prop> {
-    vec![]
+    vec![Prop { id: "C15", run: c15::run, replay: c15::replay }]
 }
